@@ -9,7 +9,10 @@ import (
 
 	protocol "github.com/hujm2023/go-sms-protocol"
 	"github.com/hujm2023/go-sms-protocol/cmpp"
+	"github.com/hujm2023/go-sms-protocol/cmpp/cmpp20"
 	"github.com/hujm2023/go-sms-protocol/datacoding"
+	"github.com/hujm2023/go-sms-protocol/sgip"
+	"github.com/hujm2023/go-sms-protocol/smgp"
 	"github.com/hujm2023/go-sms-protocol/smgp/smgp30"
 	"github.com/hujm2023/go-sms-protocol/smpp"
 	"github.com/hujm2023/go-sms-protocol/smpp/smpp34"
@@ -44,7 +47,29 @@ func oneOp(ts *pdus.Tables, r *fw.Rng) (kind, digest string) {
 	ctx := context.Background()
 	t := ts.Types[r.Intn(len(ts.Types))]
 	lt := t.Lib()
-	switch r.Intn(15) {
+	switch r.Intn(17) {
+	case 15, 16:
+		// the library's lookup tables and name/priority switches (read-only after init)
+		code := uint8(r.U32())
+		if r.Bool() {
+			code = uint8(r.Intn(12))
+		}
+		var sb strings.Builder
+		sb.WriteString(cmpp.ConnectRespResultString(code))
+		sb.WriteString(cmpp20.SubmitRespResultString(code))
+		sb.WriteString(sgip.RespStatus(code).String())
+		sb.WriteString(smgp.Status(uint32(code)).String())
+		sb.WriteString(smpp.CMDStatus(uint32(code)).Error())
+		sb.WriteString(smpp.CMDId(uint32(code)).String())
+		sb.WriteString(cmpp.CommandID(uint32(code)).String())
+		sb.WriteString(smgp.CommandID(uint32(code)).String())
+		sb.WriteString(sgip.CommandID(uint32(code)).String())
+		for _, n := range []int{0, 1, 3, 8, 9, 15, 99, int(code)} {
+			sb.WriteString(fmt.Sprint(datacoding.SMPPDataCoding(n).Priority(), datacoding.CMPPDataCoding(n).Priority(),
+				datacoding.IsValidSMPPDataCoding(datacoding.SMPPDataCoding(n)), datacoding.IsValidCMPPDataCoding(datacoding.CMPPDataCoding(n)),
+				datacoding.SMPPDataCoding(n).String(), datacoding.CMPPDataCoding(n).String()))
+		}
+		return "lookup-tables", sb.String()
 	case 14:
 		// an encode that must FAIL (a value too long for its fixed-width slot): the error path releases pooled
 		// buffers too, and must do so exactly once
@@ -207,27 +232,6 @@ func c13Case(c *fw.Case, perturb bool) {
 	for g := range seeds {
 		seeds[g] = c.R.U64()
 	}
-	// sequential oracle: the same op lists executed alone, one after the other
-	want := make([][]string, G)
-	kinds := map[string]bool{}
-	var opsOracleFailed string
-	if p, val, st := fw.Try(func() {
-		for g := 0; g < G; g++ {
-			r := fw.NewRng(seeds[g])
-			want[g] = make([]string, nops)
-			for i := 0; i < nops; i++ {
-				k, d := oneOp(ts, r)
-				kinds[k] = true
-				want[g][i] = d
-			}
-		}
-	}); p {
-		opsOracleFailed = fmt.Sprintf("%v\n%s", val, st)
-	}
-	if opsOracleFailed != "" {
-		c.Failf("sequential-"+"panic", "the op list panics even when run alone: %s", opsOracleFailed)
-		return
-	}
 	if perturb && c.W.Hooks != nil {
 		c.W.Hooks.YieldMode = 1
 		defer func() { c.W.Hooks.YieldMode = 0 }()
@@ -254,6 +258,31 @@ func c13Case(c *fw.Case, perturb bool) {
 	}
 	close(start)
 	wg.Wait()
+	// sequential oracle, AFTER the concurrent phase (lazily initialised shared state must meet concurrency cold):
+	// the same op lists executed alone, one after the other
+	if c.W.Hooks != nil {
+		c.W.Hooks.YieldMode = 0
+	}
+	want := make([][]string, G)
+	kinds := map[string]bool{}
+	var opsOracleFailed string
+	if p, val, st := fw.Try(func() {
+		for g := 0; g < G; g++ {
+			r := fw.NewRng(seeds[g])
+			want[g] = make([]string, nops)
+			for i := 0; i < nops; i++ {
+				k, d := oneOp(ts, r)
+				kinds[k] = true
+				want[g][i] = d
+			}
+		}
+	}); p {
+		opsOracleFailed = fmt.Sprintf("%v\n%s", val, st)
+	}
+	if opsOracleFailed != "" {
+		c.Failf("sequential-"+"panic", "the op list panics even when run alone: %s", opsOracleFailed)
+		return
+	}
 	c.Evals(uint64(2 * G * nops))
 	for g := 0; g < G; g++ {
 		if panics[g] != "" {
